@@ -256,6 +256,9 @@ def gen_main(module, name, header_text, script, imports_spec=None, instances=1, 
             lim = im.desc
             storage.append("static wasmMemory* impmem%d[NINST];" % n)
             alloc.append("    impmem%d[k] = wasmMemoryAllocate(%dU, %dU, %s);" % (n, lim.min, lim.max if lim.max is not None else 65536, "true" if lim.shared else "false"))
+            mf = (imports_spec or {}).get("mem_fill") or {}
+            for off, hx in (mf.get(n, mf.get(str(n))) or []):      # bytes the embedder wrote before instantiation
+                alloc.append('    memcpy(impmem%d[k]->data + %dU, %s, %d);' % (n, int(off), c_string(bytes.fromhex(hx)), len(hx) // 2))
             resolve.append("  if (!strcmp(module, %s) && !strcmp(name, %s)) return impmem%d[cur];" % (c_string(im.module), c_string(im.field), n))
             dumps.append('    OUT("b %%d %d %%d\\n", k, inst[k].%s == impmem%d[k]);' % (n, h.mem_imports[mi][1], n))
             mi += 1
@@ -341,8 +344,23 @@ def build_cmd(cc, copts, sanitize, repo_copy, tr, main_c, exe):
         cmd.append("-w")
     if sanitize:
         cmd += list(SAN_FLAGS)
-    cmd += ["-I", os.path.join(repo_copy, "w2c2"), "-I", tr.dir] + list(tr.cfiles) + [main_c, "-o", exe, "-lm", "-lpthread"]
+    cmd += ["-I", os.path.join(repo_copy, "w2c2"), "-I", tr.dir] + list(tr.cfiles) + [main_c] + list(getattr(tr, "objs", [])) + \
+        ["-o", exe, "-lm", "-lpthread"]
     return cmd
+
+
+def link_datasegments(tr):
+    """`-d gnu-ld`: turn the `datasegments` blob w2c2 wrote into an object defining _binary_datasegments_start (as the
+    project's README does: ld -r -b binary); the object is added to the link by build_cmd."""
+    blob = os.path.join(tr.dir, "datasegments")
+    if not os.path.exists(blob):
+        raise E2EError("-d gnu-ld: w2c2 wrote no `datasegments` file")
+    obj = os.path.join(tr.dir, "datasegments.o")
+    p = subprocess.run(["ld", "-r", "-b", "binary", "-z", "noexecstack", "-o", "datasegments.o", "datasegments"], cwd=tr.dir,
+                       stdout=subprocess.PIPE, stderr=subprocess.PIPE, text=True)
+    if p.returncode != 0:
+        raise E2EError("ld -r -b binary failed: " + p.stderr[-300:])
+    tr.objs = [obj]
 
 
 def first_san_line(stderr):
@@ -453,6 +471,8 @@ def run_real_multi(repo_copy, workdir, w2c2_exe, module, script, imports_spec=No
         return rs
     if not tr.ok:
         return fail("w2c2_error", "rc=%r %s" % (tr.rc, tr.stderr[-300:]), tr.cmd)
+    if "gnu-ld" in tr.cmd and not getattr(tr, "objs", None):
+        link_datasegments(tr)
     try:
         main_text = gen_main(module, tr.name, open(tr.header).read(), script, imports_spec, instances, init_dump)
         main_c = os.path.join(tr.dir, "e2e_main_%s.c" % tr.name)
@@ -639,6 +659,11 @@ def expected_memory_after_init(module, imports_spec):
     if not mems:
         return None
     data = bytearray(mems[0].min * 65536)
+    mf = (imports_spec or {}).get("mem_fill") or {}
+    mimp = [n for n, i in enumerate(module.imports) if i.kind == "memory"]
+    if mimp:
+        for off, hx in (mf.get(mimp[0], mf.get(str(mimp[0]))) or []):
+            data[int(off):int(off) + len(hx) // 2] = bytes.fromhex(hx)
     for seg in module.datas:
         if seg.mode == "active":
             off = const_value(module, seg.offset, imports_spec) & 0xFFFFFFFF
